@@ -10,6 +10,11 @@ CHECKS = {
     note=BASE + "the rules of chess are the trusted text Chess/Spec.lean (perft-validated); the algorithms of moveGen.cpp themselves are not modelled (only their outputs are judged, per position); capture/check classes exclude rook/bishop under-promotions (deliberately omitted by the code).",
     technique="Lean 4 proof (spec oracle + acceptor soundness) + per-position acceptance of the real generator's output + exhaustive table comparison",
     design="6/C01"),
+ "C02": dict(
+    text="Lean theorems (Props/C02.lean, 33): an incremental Position model (bitboards, hash keys, material id and sums, king squares, flags, counters; Zobrist tables, piece values and MatId weights abstract) with Inv = 'every redundant field equals its from-scratch recomputation'; every primitive, makeMove, unMakeMove and the null-move edits preserve Inv; makeMove refines the specification's apply; unMake . make = identity on every field; history invariants for arbitrary op lists; equal positions under the draw rules have equal hash keys; (de)serialisation round trip under exactly the field-width conditions (with necessity witnesses); FEN round trip for reader-accepted positions; MatId range / injectivity for the repaired unsigned arithmetic and overflow witnesses for the pinned code.",
+    note=BASE + "that every legally reachable position satisfies the FEN reader's well-formedness is covered by the differential on visited positions, not proved; deSerialize modelled as fresh . decode.",
+    technique="Lean 4 proof (representation invariant preserved by every operation, refinement to the chess specification) + differential of every field after every operation on make/unmake/null-move/copy histories (plain and ASan/UBSan) + from-scratch recomputation on the implementation",
+    design="notes/C02.md"),
  "C03": dict(
     text="Lean theorems (Props/C03.lean) about the root bookkeeping with arbitrary sub-search scores and a stop after any step: bestMove/bestExactMove always members of the root move list, at least one root move at reduced strength, searchmoves filter, pairwise distinct multi-PV lines, mate-N formatting; exactness of the PV acceptor (playLine accepts iff the sequence is legal). Partial: that the C++ root loop is an instance of the modelled transition system is by reading; the engine-level tie is the audit of every info/bestmove line of the real binary by the proven chess model, plus extractPVMoves under adversarially planted table contents.",
     note=BASE + "synthetic evaluation networks (the shipped one is emptied here); search internals not modelled; no 64-bit hash collisions; depth-limited searches are not run at reduced strength (they explode by design).",
